@@ -14,37 +14,24 @@ theorem block_exact (blk : HeaderBlock) (g : List Header) (hm : blk.isMalformed 
   have ht := hb hm ho
   exact ⟨track_common g _ ht hok, track_pseudoExact g _ ht hok, track_fields g _ _ ht⟩
 
-/-- the two request shapes the server accepts although RFC 9113 §8.3.1 / §8.5 call them malformed
-    (findings N2, N3; both lack `:authority`) -/
-def RequestException (g : List Header) (r : String) : Prop :=
-  (r = "connect-without-authority" ∧ Spec.Http.get g ":method" = [Spec.Http.ascii "CONNECT"] ∧
-    Spec.Http.get g ":authority" = []) ∨
-  (r = "missing-path" ∧ Spec.Http.get g ":authority" = [] ∧ Spec.Http.get g ":path" = [])
-
-/-- **request heads**: a request event for a delivered block means every rule of `Spec.Http.request`
-    holds for the block's field list, except the two `RequestException` shapes; and the fields handed
-    over are exactly the regular fields of the list -/
+/-- **request heads**: a request event for a delivered block means NO rule of `Spec.Http.request` is
+    violated by the block's field list (since the repair of findings N2 / N3 without exception), and the
+    fields handed over are exactly the regular fields of the list -/
 theorem accepted_request_rules (blk : HeaderBlock) (g : List Header) (sid : Nat) (eos : Bool) (cfg : Bool × Bool)
     (m u : Bytes) (f : Fields) (hm : blk.isMalformed = false) (hb : BlockInv blk g)
     (hok : ∀ x ∈ g, fieldOk x = true) (ha : HeadAccepted cfg (Conn.headersIn sid eos blk) (.request m u f)) :
-    (∀ r ∈ Spec.Http.request g cfg.2, RequestException g r) ∧ f = groupInto [] (regular g) ∧
+    Spec.Http.request g cfg.2 = [] ∧ f = groupInto [] (regular g) ∧
     Spec.Http.get g ":method" = [m] := by
   obtain ⟨ho, -, hc, hst, hpr, hf⟩ := ha
   obtain ⟨hcm, hpe, hfl⟩ := block_exact blk g hm ho hb hok
-  refine ⟨fun r hr => ?_, by rw [hf]; exact hfl, ?_⟩
-  · rw [request_eq_reqRules g blk.pseudo cfg.2 hcm hpe] at hr
-    have := convert_ok_rules (Conn.headersIn sid eos blk) cfg.2 m u hc hst hpr r hr
-    unfold RequestException
-    simp only [Conn.headersIn] at this
-    rw [hpe.method, hpe.authority, hpe.path]
-    rcases this with ⟨e, h1, h2⟩ | ⟨e, h1, h2⟩
-    · exact Or.inl ⟨e, by rw [h1]; rfl, by rw [h2]; rfl⟩
-    · exact Or.inr ⟨e, by rw [h1]; rfl, by rw [h2]; rfl⟩
+  refine ⟨?_, by rw [hf]; exact hfl, ?_⟩
+  · rw [request_eq_reqRules g blk.pseudo cfg.2 hcm hpe]
+    have := convert_ok_rules (Conn.headersIn sid eos blk) cfg.2 m u hc hst hpr
+    simpa only [Conn.headersIn] using this
   · rw [hpe.method]
     have := convert_ok_method _ m u hc
     simp only [Conn.headersIn] at this
     rw [this]; rfl
-
 
 theorem mem_vals (g : List Header) (n v : Bytes) (h : v ∈ vals g n) : (n, v) ∈ g := by
   unfold vals at h
@@ -106,11 +93,12 @@ theorem accepted_trailers_rules (blk : HeaderBlock) (g : List Header) (sid : Nat
   · cases hr
 
 /-- what the application may be handed for a delivered header block that stands for the field list `g`:
-    a request (server) / response (client) whose only possible rule violations are the listed
-    exceptions, with exactly the regular fields of `g`; or trailers -/
+    a request (server) obeying every rule of `Spec.Http.request`; a response (client) / trailers whose
+    only possible rule violations are the listed known findings F5a–c; always with exactly the regular
+    fields of `g` -/
 def ValidEvent (cfg : Bool × Bool) (g : List Header) (ev : REvent) : Prop :=
   match ev with
-  | .request m _ f => cfg.1 = true ∧ (∀ r ∈ Spec.Http.request g cfg.2, RequestException g r) ∧
+  | .request m _ f => cfg.1 = true ∧ Spec.Http.request g cfg.2 = [] ∧
       f = groupInto [] (regular g) ∧ Spec.Http.get g ":method" = [m]
   | .headers st f => cfg.1 = false ∧
       (∀ r ∈ Spec.Http.response g, r = "missing-status" ∨ r = "request-pseudo-in-response") ∧
